@@ -491,5 +491,6 @@ pub fn run(ctx: &Ctx) -> Vec<Eng> {
             });
         }
     }
-    vec![e1, e2, e3, e4, e5, eT]
+    let ew = crate::c05::wiring_engine("c11-input-wirings", &[1, 2, 3], 5, budget);
+    vec![e1, e2, e3, e4, e5, eT, ew]
 }
